@@ -171,6 +171,8 @@ type Meta struct {
 	Sleep, Jitter uint32
 	KillDate uint64
 	WorkingHours uint32
+	// OddPath: the process path is sent one byte short (its last UTF-16 code unit is incomplete)
+	OddPath bool
 }
 
 type Pkg struct {
@@ -209,7 +211,11 @@ func (m Meta) encode(id uint32) []byte {
 	var p PB
 	p.Int32(id)
 	p.Str(m.Hostname).Str(m.Username).Str(m.Domain).Str(m.InternalIP)
-	p.WStr(m.ProcessPath)
+	if w := UTF16LE(m.ProcessPath); m.OddPath && len(w) > 2 {
+		p.Bytes(w[:len(w)-1])
+	} else {
+		p.WStr(m.ProcessPath)
+	}
 	p.Int32(m.PID).Int32(m.TID).Int32(m.PPID).Int32(m.Arch).Int32(m.Elevated)
 	p.Int64(m.Base)
 	for _, v := range m.OS {
